@@ -137,6 +137,14 @@ def laws(rng):
 
             def mk():
                 return impl.build(p).shuffle(reshuffle=True, rng=np.random.RandomState(seed2)).map(f)
+            # batch(n).unbatch() is the identity also for FROZEN copies of equally seeded reshuffles: one fixed order,
+            # the same on both sides, in every pass
+            fa, fb = mk().batch(bs).unbatch().copy(freeze=True), mk().copy(freeze=True)
+            for pass_ in range(3):
+                la, lb = list(fa), list(fb)
+                if la != lb:
+                    out.append(('batch_unbatch_id_frozen_reshuffle', {'pipeline': p, 'batch_size': bs, 'seed': seed2, 'pass': pass_, 'lhs': la, 'rhs': lb}))
+                    break
             A, B = mk(), mk()
             ta, tb = A.tile(r), lazy_dataset.concatenate(*([B] * r))
             for epoch in range(2):
